@@ -697,7 +697,9 @@ def compare(res, ref, regime, K, args_tw, out_q=None):
         if regime == "cast":
             # a dtype move keeps the codes and converts the scale: the reference value was rounded in the source dtype
             u = max([u] + [_u(t.dtype) for t in args_tw if isinstance(t, torch.Tensor) and t.dtype.is_floating_point])
-        tol = 3 * u * b.abs() + 2 * tiny
+        # rescaling rounds twice on each side - library fl(fl(scale*c)*code), float twin fl(fl(scale*code)*c) - so the two results may
+        # differ by up to 4u relative (plus second-order terms), i.e. two ulps at the bottom of a binade
+        tol = 4.5 * u * b.abs() + 2 * tiny
         if out_q is not None and hasattr(out_q, "_data") and out_q.qtype.name in num.float8.QMAX:
             # the new scale is rounded to the dtype: absolute error of one subnormal quantum when it underflows, times |code|
             try:
